@@ -29,7 +29,13 @@ EXPLANATION = (
     'period, duration, level, final_time lists exactly the events with '
     'start + k*period <= final_time (k < multiplier when finite) with '
     '(time, duration, level*duration); the floor is forked over its feasible '
-    'integer values.')
+    'integer values; (e) ProblemModellingController.set_data / '
+    'get_dosing_regimens run on a pandas data frame whose dose amounts, dose '
+    'times and durations are symbolic (object columns; pd.to_numeric passes '
+    'them through): every individual\'s regimen holds exactly its dose rows '
+    '(rows without a dose or without a time are no events), with start = '
+    'time, rate * duration = amount and the documented 0.01 bolus duration '
+    'when the duration is missing.')
 
 FACADE = {'facade': {'myokit': True}, 'diffcheck': False, 'floor_cap': 5,
           'max_paths': 400}
@@ -244,9 +250,129 @@ def case_table(B, cfg):
     B.note('n_rows', len(rows))
 
 
+NAN = float('nan')
+
+
+def dataset_rows(B, layout, id_labels, tag=''):
+    """long-format rows for the given per-individual row kinds:
+    'M' measurement; 'D' dose with a duration; 'B' dose without duration
+    (bolus); 'X' dose row without a time (not a dose event); 'N' row with a
+    duration but no dose (not a dose event).  Dose amounts, times and
+    durations are symbolic.  Returns (rows per individual, expected events
+    per individual)."""
+    rows, want = [], []
+    for i, kinds in enumerate(layout):
+        r, w = [], []
+        for j, k in enumerate(kinds):
+            name = '%s%d_%d' % (tag, i, j)
+            if k == 'M':
+                r.append(dict(ID=id_labels[i], Time=0.5 + j, Observable='Conc',
+                              Value=B.var('y' + name), Dose=NAN,
+                              Duration=NAN))
+                continue
+            t, d, u = B.var('t' + name), B.var('d' + name), B.var('u' + name)
+            B.assume(d > 0)
+            B.assume(u > 0)
+            B.assume(t >= 0)
+            row = dict(ID=id_labels[i], Time=t, Observable=NAN, Value=NAN,
+                       Dose=d, Duration=u)
+            if k == 'B':
+                row['Duration'] = NAN
+                w.append((t, d, 0.01))
+            elif k == 'X':
+                row['Time'] = NAN
+            elif k == 'N':
+                row['Dose'] = NAN
+            else:
+                w.append((t, d, u))
+            r.append(row)
+        rows.append(r)
+        want.append(w)
+    return rows, want
+
+
+def interleave(rows, order):
+    if order == 'blocks':
+        return [r for ind in rows for r in ind]
+    if order == 'reversed blocks':
+        return [r for ind in reversed(rows) for r in ind]
+    out = []
+    k = 0
+    while any(k < len(ind) for ind in rows):
+        for ind in rows:
+            if k < len(ind):
+                out.append(ind[k])
+        k += 1
+    return out
+
+
+def case_dataset(B, cfg):
+    """(e) regimens derived from a dataset reproduce each individual's dose
+    rows"""
+    import pandas as pd
+    m = _pk(B)
+    m.set_administration('central', direct=cfg['direct'])
+    ctrl = chi.ProblemModellingController(m, chi.GaussianErrorModel())
+    labels = cfg['ids']
+    rows, want = dataset_rows(B, cfg['layout'], labels)
+    flat = interleave(rows, cfg['order'])
+    df = pd.DataFrame(flat, columns=['ID', 'Time', 'Observable', 'Value',
+                                     'Dose', 'Duration'])
+    kw = {}
+    if not cfg.get('duration_column', True):
+        df = df.drop(columns=['Duration'])
+        kw['dose_duration_key'] = None
+        want = [[(t, d, 0.01) for (t, d, u) in w] for w in want]
+    try:
+        ctrl.set_data(df, **kw)
+    except Exception as e:
+        B.fact('no-exception:set_data', False, repr(e))
+        return
+    regs = ctrl.get_dosing_regimens()
+    first = []
+    for r in flat:
+        if str(r['ID']) not in first:
+            first.append(str(r['ID']))
+    B.fact('one regimen per individual, keyed by the ID as a string',
+           regs is not None and sorted(regs.keys()) == sorted(first),
+           repr(None if regs is None else list(regs.keys())))
+    if regs is None:
+        return
+    for i, lab in enumerate(labels):
+        if str(lab) not in regs:
+            continue
+        ev = regs[str(lab)].events()
+        B.fact('ID %s: number of dose events = number of dose rows' % lab,
+               len(ev) == len(want[i]), '%d vs %d' % (len(ev), len(want[i])))
+        for k, (e, (t, d, u)) in enumerate(zip(ev, want[i])):
+            B.eq('ID %s dose %d: start = time of the row' % (lab, k),
+                 e.start(), t)
+            B.eq('ID %s dose %d: duration (0.01 when missing)' % (lab, k),
+                 e.duration(), u)
+            B.eq('ID %s dose %d: rate * duration = dose amount' % (lab, k),
+                 e.level() * e.duration(), d)
+            B.fact('ID %s dose %d: a single event' % (lab, k),
+                   e.period() == 0 and e.multiplier() == 0)
+
+
 def jobs(tier):
     out = []
     q = tier == 'quick'
+    kinds = 'DBXNM'
+    k = 0
+    for a in itertools.product(kinds, repeat=2 if q else 3):
+        for order in ('blocks', 'interleaved', 'reversed blocks'):
+            if q and (k % 3) != ('blocks', 'interleaved',
+                                 'reversed blocks').index(order):
+                continue
+            out.append(('dataset', 'case_dataset', dict(
+                direct=(k % 2 == 0), layout=[list(a), ['B', 'M', 'D']],
+                order=order, ids=[['a', 'b'], [2, 1], ['10', '9']][k % 3],
+                duration_column=(k % 5 != 4)), FACADE))
+        k += 1
+    out.append(('dataset', 'case_dataset', dict(
+        direct=True, layout=[['D', 'B'], ['M'], ['B', 'X', 'D']],
+        order='interleaved', ids=[3, 1, 2]), FACADE))
     for direct in (True, False):
         for num in (None, 0, 1, 2, 3):
             for period in (False, True):
@@ -283,11 +409,15 @@ BOUNDS = dict(
     quick='num in {None,0,1,2,3}, with/without period, direct and indirect '
           'route; surgery on every dosable state of 2 library models and of '
           'generated models with 1..2 states; regimen tables for multiplier '
-          '0..3 with at most 4 doses before final_time (floor forked up to 5)',
+          '0..3 with at most 4 doses before final_time (floor forked up to 5); '
+          'dataset regimens: 2-3 individuals, every pair of row kinds {dose '
+          'with duration, bolus, dose without time, duration without dose, '
+          'measurement} for the first individual, block / interleaved / '
+          'reversed row order, string and integer IDs, with and without a '
+          'duration column',
     thorough='generated models with up to 3 states in every declaration '
-             'order',
-    outside='regimens derived from a dataset (pandas row routing, see C14); '
-            'the integrator: "receives drug at rate dose/duration" is decided '
+             'order; every triple of dataset row kinds',
+    outside='the integrator: "receives drug at rate dose/duration" is decided '
             'for what chi hands to the solver (protocol + equations), under '
             'myokit\'s documented event semantics')
 TRUSTED = ['myokit model / expression classes (real)', 'protocol stub = '
